@@ -16,6 +16,8 @@ from .. import model
 def promoted_array(ctx, body, operand):
     """elements of a `&[..]` literal argument (promoted constant)"""
     e = strip(body.expr(operand))
+    if e[0] == 'aggr' and e[1] == 'array':          # promoted constants are resolved by Body.expr
+        return [strip(x) for x in e[2]]
     if e[0] == 'const' and e[3] and 'promoted[' in e[3]:
         idx = int(re.search(r'promoted\[(\d+)\]', e[3]).group(1))
         for pb in ctx.facts.promoted(body.path):
